@@ -35,11 +35,12 @@ PROP = 'C11'
 # value palettes (chosen by VERIF_SEED % 3); same structure in all of them:
 #   int   three distinct values that fit int32
 #   float letter 1 is zero (so that 2-letter tables contain it), all exactly representable in float32
-#   str   letter 1 is the widest string (so that natural widths differ between columns)
+#   str   letter 1 is the widest string (so that natural widths differ between columns) and letters 0 and 2 are
+#         PREFIXES of it (a comparison after truncation to the narrower column's width would match them)
 PALETTES = {
     'int': [[1, 2, 3], [0, -1, 7], [5, 256, 65536]],
     'float': [[1.0, 0.0, 2.5], [-1.5, 0.0, 0.25], [3.0, 0.0, 0.5]],
-    'str': [['a', 'ccc', 'bb'], ['x', 'xyz', 'yz'], ['b', 'abc', 'ab']],
+    'str': [['a', 'aab', 'aa'], ['x', 'xyz', 'xy'], ['b', 'abc', 'ab']],
 }
 
 # column configurations: kind, dtype of the left column, dtype of the right column, right zeros negative
